@@ -187,3 +187,15 @@ func HarnessSelfData() {
 	vObserve("chan", int64(got))
 	vReach("end")
 }
+
+// decimal formatting contract over the whole int64 range (incl. MinInt64): what FormatInt
+// renders, ParseInt reads back
+func HarnessSelfDecimal() {
+	x := vNondetInt("x", -9223372036854775808, 9223372036854775807)
+	s := strconv.FormatInt(x, 10)
+	y, err := strconv.ParseInt(s, 10, 64)
+	vCheck("self.decimal.roundtrip", err == nil && y == x)
+	vObserve("len", int64(len(s)))
+	vObserve("neg", int64(strings.Count(s, "-")))
+	vReach("end")
+}
